@@ -514,6 +514,12 @@ func trunc(s string, n int) string {
 // specAgrees: the spec answer may end in " *" (a wildcard for the rest) and never carries error classes.
 func specAgrees(implCanon, spec string) bool {
 	sp := canon(spec)
+	if strings.HasPrefix(sp, "if-ok ") {
+		if !strings.HasPrefix(implCanon, "ok ") {
+			return true
+		}
+		sp = "ok " + strings.TrimPrefix(sp, "if-ok ")
+	}
 	if strings.HasSuffix(sp, " *") {
 		return strings.HasPrefix(implCanon, strings.TrimSuffix(sp, "*"))
 	}
